@@ -257,7 +257,7 @@ def p3(ctx):
 @rule("P4", doc="PendingType::merge is the join with Full on top", once=True)
 def p4(ctx):
     crate = ctx.lib("default")
-    adt = crate.adts.get("egraph::PendingType")
+    adt = crate.adt_named("egraph::PendingType")
     if adt is None:
         raise mir.AnchorMissing("egraph::PendingType")
     names = [v["name"] for v in adt["variants"]]
@@ -381,8 +381,9 @@ def p7(ctx):
     reach_leader = {b.id for b in crate.fns() if leaders & crate.reachable_from([b.id], resolve_traits=False)}
     n = 0
     for wid in C.need("W_slots", C.slot_writers(crate)):
-        b = crate.bodies[wid]
-        d = crate.deps(b)
+        # single-use helpers of the slot-set writer (e.g. the re-assertion loop extracted into a method) are looked through
+        b = mir.inline_view(crate, crate.bodies[wid], keep=("touched_class", "record_redundancy_witness", "union_internal", "union_leaders"))
+        d = mir.Deps(crate, b) if b is not crate.bodies[wid] else crate.deps(b)
         for bi, si, s in b.statements():
             if s["k"] == "assign" and mir.place_has_field(s["lhs"], C.ECLASS, "slots"):
                 n += 1
